@@ -8,7 +8,7 @@ import pC01
 
 PROP = "C07"
 DRIVER = "C07"
-LEAN_TARGETS = ["SmrtVerif.Props.C07", "SmrtVerif.Driver.C07", "SmrtVerif.Driver.C10"]
+LEAN_TARGETS = ["SmrtVerif.Props.C07", "SmrtVerif.Driver.C07", "SmrtVerif.Driver.C10", "SmrtVerif.Driver.Dort"]
 TRUSTED = pC01.TRUSTED + ["the Rayleigh phase-matrix model of C10 (re-corresponded here on a reduced sample)"]
 ASSUMPTIONS = ["reciprocity of the full multiple-scattering solution (0.3 dB), the O(albedo) error of the first-order form and the 5 % "
                "interpolation error have no theorem: they are evaluated by the oracle on real runs (DESIGN §6)"]
@@ -68,8 +68,19 @@ def correspond(ctx):
         co.add("dort.recompose", f"recompose {n} {k} {mmax} {f2t(phi)} " + " ".join(str(int(i)) for i in inc) + " " + arrs, fs(back), TOL,
                desc={"m_max": mmax, "phi": phi, "theta_inc": thetas})
         co.note(f"m_max={mmax}"); co.note("backscatter azimuth" if phi == math.pi else "other azimuth")
+    # the air streams and their weights (the beam power is 1 / (2 pi outweight)) for the scenes of the property
+    co2 = Corr(PROP, "Dort")
+    for _ in range(ctx.n(12, 80)):
+        sc = scenes.random_scene(rng, lossless=False, microstructure="exponential", max_layers=4, atmosphere=False, active=True)
+        sc["emmodel"], sc["nmax"] = "iba", int(rng.choice([8, 16, 32, 64]))
+        try:
+            c, s = pC01.extract(sc)
+        except AssertionError:
+            continue
+        l, i = pC01.streams_line(s, c)
+        co2.add("streams", l, i, Tol(1e-12), desc={"eps": [str(e) for e in s.effective_permittivity], "nmax": s.n_max_stream})
     sub = pC10.correspond(SubCtx(ctx, 0.12))
-    return MultiCorr([co, sub])
+    return MultiCorr([co, co2, sub])
 
 
 # ---------------------------------------------------------------------------------------------
@@ -120,23 +131,33 @@ def check_first_order(sc):
     ang = np.asarray(first.other_data["stream_angles"].values); ang = ang[(ang > 5) & (ang < 60)]
     if len(ang) == 0:
         return None
-    th = float(ang[len(ang) // 2])
-    r = m.run(sensor_list.active(sc["frequency"], [th]), sp)
-    vv, hh, albedo = first_order(sc, th)
-    for name, got, ref in (("VV", float(r.sigmaVV()), vv), ("HH", float(r.sigmaHH()), hh)):
-        rel = abs(got - ref) / ref
-        # "of the order of the albedo": 10 x albedo, with a floor of 0.5 % - in absorbing media the closed form's refraction
-        # (real index) and Fresnel transmissivity differ from the solver's at the 1e-3 level whatever the albedo (measured <= 2e-3)
-        if rel > max(10 * albedo, 5e-3):
-            return ("first-order:" + name, rel, f"<= max(10 x albedo ({albedo:.2g}), 5e-3) at a stream angle")
-    # between stream angles: interpolation error below 5 % with >= 32 streams
+    # three stream angles requested together in an order that is neither ascending nor descending
+    pick = sorted({int(len(ang) // 4), int(len(ang) // 2), int(3 * len(ang) // 4)})
+    ths = [float(ang[i]) for i in pick]
+    ths = [ths[1], ths[0], ths[2]] if len(ths) == 3 else ths      # the permutation that sorts the cosines is a 3-cycle (not self-inverse)
+    r = m.run(sensor_list.active(sc["frequency"], ths), sp)
+    svv, shh = np.asarray(r.sigmaVV()).ravel(), np.asarray(r.sigmaHH()).ravel()
+    for j, th in enumerate(ths):
+        vv, hh, albedo = first_order(sc, th)
+        for name, got, ref in (("VV", float(svv[j]), vv), ("HH", float(shh[j]), hh)):
+            rel = abs(got - ref) / ref
+            # "of the order of the albedo": 10 x albedo, with a floor of 0.5 % - in absorbing media the closed form's refraction
+            # (real index) and Fresnel transmissivity differ from the solver's at the 1e-3 level whatever the albedo (measured <= 2e-3)
+            if rel > max(10 * albedo, 5e-3):
+                return ("first-order:" + name, rel, f"<= max(10 x albedo ({albedo:.2g}), 5e-3) at the stream angle {th:.3f} deg")
+    th = ths[0]
+    # between stream angles: interpolation error below 5 % with >= 32 streams - in the middle of the range and between the first two streams
+    allang = np.asarray(first.other_data["stream_angles"].values); allang = np.sort(allang[allang > 1e-9])
     if sc["nmax"] >= 32 and len(ang) > 2:
-        th2 = float(0.5 * (ang[len(ang) // 2] + ang[len(ang) // 2 - 1]))
-        r2 = m.run(sensor_list.active(sc["frequency"], [th2]), sp)
-        vv2, hh2, _ = first_order(sc, th2)
-        for name, got, ref in (("VV", float(r2.sigmaVV()), vv2), ("HH", float(r2.sigmaHH()), hh2)):
-            if abs(got - ref) / ref > 0.05 + 10 * albedo:
-                return ("first-order-interp:" + name, abs(got - ref) / ref, "<= 5 %")
+        mids = [float(0.5 * (ang[len(ang) // 2] + ang[len(ang) // 2 - 1]))]
+        if len(allang) > 2 and 0.5 * (allang[0] + allang[1]) >= 2.0:
+            mids.append(float(0.5 * (allang[0] + allang[1])))
+        for th2 in mids:
+            r2 = m.run(sensor_list.active(sc["frequency"], [th2]), sp)
+            vv2, hh2, _ = first_order(sc, th2)
+            for name, got, ref in (("VV", float(r2.sigmaVV()), vv2), ("HH", float(r2.sigmaHH()), hh2)):
+                if abs(got - ref) / ref > 0.05 + 10 * albedo:
+                    return ("first-order-interp:" + name, abs(got - ref) / ref, f"<= 5 % at {th2:.3f} deg")
     return None
 
 
